@@ -392,3 +392,76 @@ def canonical_range_for(prog):
                         changed = True
                         break
     return n
+
+
+# ----------------------------------------------------------------------------- local reference aliases
+def _lvalue_path(e):
+    """e is a chain of Ref/Member/This/Index (std::vector subscripts with pure index expressions)."""
+    e = ir.strip_casts(e)
+    k = e.get('k')
+    if k in ('Ref', 'This'):
+        return True
+    if k == 'Member':
+        return e.get('base') is None or _lvalue_path(e['base'])
+    if k == 'Index':
+        return _lvalue_path(e['base']) and _pure(e['idx']) and not any(n.get('k') == 'Call' for n in ir.walk_expr(e['idx']))
+    return False
+
+
+def _path_ids(e):
+    """ids of the variables that determine WHICH object the lvalue path denotes (index variables, pointer-like bases)."""
+    out = set()
+    e = ir.strip_casts(e)
+    while True:
+        k = e.get('k')
+        if k == 'Index':
+            for n in ir.walk_expr(e['idx']):
+                if n.get('id'):
+                    out.add(n['id'])
+            e = ir.strip_casts(e['base'])
+        elif k == 'Member' and e.get('base') is not None:
+            e = ir.strip_casts(e['base'])
+        else:
+            break
+    return out
+
+
+def resolve_reference_aliases(prog):
+    """`T& r = <lvalue path>;` followed by uses of r  ->  the path itself, when nothing that selects the object (index
+    variables) is written in the rest of the enclosing block.  In place; returns the number of aliases resolved."""
+    n = 0
+    for f in prog.all_functions(include_patterns=True):
+        if f.body is None:
+            continue
+        changed = True
+        rounds = 0
+        while changed and rounds < 8:
+            changed = False
+            rounds += 1
+            for s in ir.walk_stmts(f.body):
+                if s.get('k') != 'Compound':
+                    continue
+                seq = s['body']
+                for pos, st in enumerate(seq):
+                    if st.get('k') != 'Decl' or len(st['decls']) != 1:
+                        continue
+                    d = st['decls'][0]
+                    tyw = str(d.get('tyw', '')).strip()
+                    if not tyw.endswith('&') or tyw.endswith('&&') or d.get('init') is None or d.get('static'):
+                        continue
+                    init = ir.strip_casts(d['init'])
+                    if init.get('k') == 'Ref' and init.get('rk') == 'param':
+                        pass
+                    if not _lvalue_path(init) or init.get('k') == 'This':
+                        continue
+                    rest = {'k': 'Compound', 'body': seq[pos + 1:]}
+                    if _path_ids(init) & _written_ids(rest):
+                        continue
+                    new_rest = _subst(rest, {d['id']: init})['body']
+                    s['body'] = seq[:pos] + new_rest
+                    n += 1
+                    changed = True
+                    break
+                if changed:
+                    break
+    return n
